@@ -164,13 +164,14 @@ _XG = bytes.fromhex("79be667ef9dcbbac55a06295ce870b07029bfcdb2dce28d959f2815b16f
 _VALID_HT = (0, 1, 2, 3, 0x81, 0x82, 0x83)
 
 
-@ob("C09", "psbt_taproot_digest_is_the_direct_one", quick=[dict(nin=n, own=o, arg=a, leaf=l) for n in (1, 2) for o in (0, 1) for a in (0, 1) for l in (0, 1) if (n + o + a + l) % 2 == 0 or n == 1],
-    thorough=[dict(nin=n, own=o, arg=a, leaf=l) for n in (1, 2, 3) for o in (0, 1) for a in (0, 1) for l in (0, 1)],
-    bound="a version 0 PSBT with 1..3 taproot inputs (utxo amounts, sequences, lock time, version symbolic) and one output; the input's own PSBT_IN_SIGHASH_TYPE absent or symbolic over the seven valid types, "
+@ob("C09", "psbt_taproot_digest_is_the_direct_one", quick=[dict(nin=n, own=o, arg=a, leaf=l) for n in (1, 2) for o in (0, 1) for a in (0, 1) for l in (0, 1) if (n + o + a + l) % 2 == 0 or n == 1]
+    + [dict(nin=1, own=0, arg=1, leaf=0, sp=1), dict(nin=2, own=1, arg=0, leaf=1, sp=1)],
+    thorough=[dict(nin=n, own=o, arg=a, leaf=l) for n in (1, 2, 3) for o in (0, 1) for a in (0, 1) for l in (0, 1)] + [dict(nin=n, own=o, arg=a, leaf=0, sp=1) for n in (1, 2) for o in (0, 1) for a in (0, 1)],
+    bound="a version 0 PSBT (sp=1: a version 2 PSBT whose output also carries a BIP375 silent-payment address next to its script) with 1..3 taproot inputs (utxo amounts, sequences, lock time, version symbolic) and one output; the input's own PSBT_IN_SIGHASH_TYPE absent or symbolic over the seven valid types, "
           "the hash_type argument absent or symbolic over the seven valid types (0 included), key path and script path (symbolic leaf hash): psbt.taproot_sig_hash equals sig_hash.taproot on the "
           "unsigned transaction with the argument when given, else the input's own type, else SIGHASH_DEFAULT",
     stubs=_STUBS, functions=["btclib.psbt.psbt.taproot_sig_hash", "btclib.psbt.psbt._taproot_sig_hash", "btclib.script.sig_hash.taproot", "btclib.psbt.psbt_view.PsbtView.taproot_sig_hash"], min_ok=1, timeout=600)
-def psbt_taproot_digest(ex, nin, own, arg, leaf):
+def psbt_taproot_digest(ex, nin, own, arg, leaf, sp=0):
     from sx import instr
     if not ex.concrete:
         instr.HASH_INJECTIVE = True
@@ -186,6 +187,11 @@ def psbt_taproot_digest(ex, nin, own, arg, leaf):
         ins.append((OutPoint(bytes([0x10 + i]) * 32, i, check_validity=False), seq_, utxo))
     tx = Tx(version, lock, [TxIn(op, b"", s, Witness(), check_validity=False) for op, s, _ in ins], [TxOut(1000, b"\x51\x20" + _XG, check_validity=False)], check_validity=False)
     p = Psbt.from_tx(tx, check_validity=False)
+    if sp:
+        # a version 2 PSBT whose output also carries its BIP375 silent-payment address (scan and spend key): the digest commits to the output *script*,
+        # the address substitution belongs to the unique identifier only
+        p = p.to_v2()
+        p.outputs[0].sp_v0_info = b"\x02" + _XG + b"\x03" + _XG
     for k, (_, _, utxo) in enumerate(ins):
         p.inputs[k].witness_utxo = utxo
     own_ht = None
